@@ -396,6 +396,15 @@ def run(tier: str, seed: int) -> dict:
             if desc is not None and st in ("not-implemented", "not-built"):
                 if sum(1 for x in samples if st in x) < 2:
                     samples.append({st: desc})
+    samples.append(
+        {
+            "class": "Av('a', ['aa', 'ab'], 'ab', False, ('na', 'nb'))",
+            "strategy": "ExpansionAtomLast(merge=False)",
+            "form": ["equiv-reverse"],
+            "meaning": "only the atom child is non-empty: the atom (statistic na2) = the class (na, nb), "
+            "Complement of the one-child union with map {na: na2}",
+        }
+    )
     samples.append({"kinds": dict(kinds)})
     return {
         "bound": (
